@@ -18,7 +18,7 @@ CHECKS = {
  "C06": ("exploration", "bounded-exhaustive tree enumeration with independent renderer and round trip",
    "All trees up to a node bound assembled with the public constructors, all trees the parser returns for short token sequences, trees produced by preprocessing and deep chains: stored text/height at every node vs an independent renderer, print->parse round trip. Also the public random constructor new_random_boolean on an enumerated grid of (levels, seed).", "§3 C06"),
  "C07": ("exploration", "bounded-exhaustive tree enumeration against an independent scope checker and de-Bruijn normaliser",
-   "All parsed trees up to a node bound (preprocessed against the extended symbolic context of a parametrised network; every foreign symbolic variable name tried as a proposition) over variable names that collide with the internal ones in every order, with jumps everywhere: accept iff well-scoped, output exactly the depth-named alpha-variant, idempotent. Also a domain-focused alphabet (quantifiers with and without %d%) and six contexts of networks built programmatically in non-lexicographic declaration order.", "§3 C07"),
+   "All parsed trees up to a node bound (preprocessed against the extended symbolic context of a parametrised network; every foreign symbolic variable name tried as a proposition) over variable names that collide with the internal ones in every order, with jumps everywhere: accept iff well-scoped, output exactly the depth-named alpha-variant, idempotent. Also a domain-focused alphabet (quantifiers with and without %d%) and six contexts of networks built programmatically in non-lexicographic declaration order; until operators with compound operands on sparse 3- / 4-variable networks.", "§3 C07"),
  "C08": ("exploration", "bounded-exhaustive enumeration of formulae x meaning-preserving rewrites, differential on the real entry points",
    "For every formula up to a node bound (and the template families) every rewrite of finite families (all scope-respecting renamings into names that collide with the internal ones, whitespace patterns at every token boundary, redundant parentheses at every sub-formula, long/short spellings, constant spellings) is evaluated and must give the same set as the canonical text.", "§3 C08"),
  "C09": ("exploration", "bounded-exhaustive enumeration of sub-trees / formula lists against an independent alpha-equivalence decision and occurrence counter",
@@ -49,14 +49,14 @@ CHECKS = {
 
 # additions of rounds 12-13 (appended to the description of the check)
 ADDENDA = {
- "C01": " Also: two-step histories (look-alike graphs - same encoding with other update functions, unit variants of one network - evaluated one after the other on one fresh OS thread, probes against the oracle) and graphs with per-variable spare counts.",
+ "C01": " Also: two-step histories (look-alike graphs - same encoding with other update functions, unit variants of one network - evaluated one after the other on one fresh OS thread, probes against the oracle) and graphs with per-variable spare counts; re-parenthesised groups; until operators with compound operands on sparse networks.",
  "C02": " Also: two-step histories with domain-restricted quantifiers (two label families).",
  "C04": " Also: caches that outlive a call - two-step histories over look-alike graphs, plain and extended probes against the oracle; renaming cache hits on graphs with per-variable spare counts.",
  "C07": " Also: a family of contexts that know each other's variable names, gone through twice on one thread.",
- "C08": " Also: state-variable names spelled like constants, the keyword `in` and operators; seven networks whose variable names look like operators / constants / spare variables.",
+ "C08": " Also: state-variable names spelled like constants, the keyword `in` and operators; seven networks whose variable names look like operators / constants / spare variables; the self-loop-free entry point under the same rewrites; unary operands of binary operators.",
  "C09": " Also: 10^6 (thorough 5*10^6) same-shape sub-formulae canonised in sequence on one thread, each against its closed form.",
- "C10": " Also: one public evaluation context re-used for successive substitutions (label in proposition and in domain position); graphs with a restricted unit set and spare variable sets.",
- "C11": " Also: compositionality - for every ordered pair (A, B) of 20 operator applications over the same arguments `A & B` must be the intersection of A and B evaluated on their own (and the batch [A, B] must return both); the 3-variable menu family also with sign and observability of every essential input declared.",
+ "C10": " Also: one public evaluation context re-used for successive substitutions (label in proposition and in domain position); graphs with a restricted unit set and spare variable sets; pre-computed results travelling through a result archive.",
+ "C11": " Also: compositionality - for every ordered pair (A, B) of 20 operator applications over the same arguments `A & B` must be the intersection of A and B evaluated on their own (and the batch [A, B] must return both); the 3-variable menu family also with sign and observability of every essential input declared; a 196 607-node argument set; nests of two unary temporal operators against the oracle.",
  "C12": " Also: two-step histories with the two patterns and their twins; the shortcut through model_check_formula_unsafe_ex where self-loops cannot matter.",
  "C13": " Also: shift registers with 58..70 variables (> 2^53 states): EW / AW on two / three consecutive chain states against the defining equivalences and closed forms (child processes).",
  "C14": " Also: one context label in both roles across the formulae of a batch; names of the graph's spare variables as propositions.",
@@ -65,7 +65,7 @@ ADDENDA = {
  "C17": " Also: -o naming the -e file. Thorough: every closed plain formula with <= 5 nodes and every closed extended formula with <= 3 nodes through the tool in files of 7 lines (about 90 000 executions).",
  "C18": " Also: graphs whose unit set was restricted after construction (every second colour, single colours) or perturbed by restrict_variable_in_graph.",
  "C19": " The joint family over all targets (one interpretation per shared symbol) is recorded as an observation only - the property is stated per variable.",
- "C20": " Also: networks with several function symbols in non-alphabetical first-use order, spare-variable-like names and non-lexicographic declaration order.",
+ "C20": " Also: networks with several function symbols in non-alphabetical first-use order, spare-variable-like names and non-lexicographic declaration order; until operators with compound operands on sparse 3- / 4-variable networks.",
 }
 NOT_YET = {
 }
